@@ -214,7 +214,7 @@ def model_check(module, cfg, pid, workers=None, simulate=None, depth=None, timeo
         raise ToolError(f"TLC failed on {module}/{cfg}")
     # per-action coverage: lines like  <Name line x, col y to ... of module M>: distinct:total
     cov = {}
-    for m in re.finditer(r"^<(\w+) line \d+, col \d+ to line \d+, col \d+ of module (\w+)>: (\d+):(\d+)", out, re.M):
+    for m in re.finditer(r"^<(\w+) line \d+, col \d+ to line \d+, col \d+ of module (\w+)(?: \([\d ]+\))?>: (\d+):(\d+)", out, re.M):
         cov[m.group(1)] = cov.get(m.group(1), 0) + int(m.group(4))
     r["coverage"] = cov
     r["tuples"] = _printed_tuples(out)
